@@ -68,6 +68,7 @@ func (u *Unsupported) Error() string { return u.Msg }
 type Options struct {
 	Unwind     int
 	MaxAlloc   int
+	MinCap     int
 	Trace      bool
 	FeasChecks bool
 }
@@ -108,6 +109,9 @@ type Engine struct {
 	curPos  token.Pos
 	threads *threadState
 	asserts int
+	arrPool map[string][]*Object
+	kills   int
+	feasTimeouts int
 	trivObls int
 	tier    int64
 	doneChans map[string]*Object
@@ -133,6 +137,9 @@ func NewEngine(prog *ssa.Program, opts Options) *Engine {
 	e.clock = e.tb.Int(946684800 * 1e9) // synctest bubble epoch: 2000-01-01T00:00:00Z
 	if e.opts.Unwind == 0 {
 		e.opts.Unwind = 12
+	}
+	if e.opts.MinCap == 0 {
+		e.opts.MinCap = 8
 	}
 	if e.opts.MaxAlloc == 0 {
 		e.opts.MaxAlloc = 16
@@ -197,6 +204,7 @@ func (e *Engine) runtimePanic(label string, pos token.Pos, bad *Term) {
 	} else {
 		e.addObl("panic", label, pos, bad)
 	}
+	e.kills++
 	e.G = e.tb.And(e.G, e.tb.Not(bad))
 }
 
@@ -213,6 +221,7 @@ func (e *Engine) wouldBlock(label string, pos token.Pos, bad *Term) {
 	} else {
 		e.addObl("block", label, pos, bad)
 	}
+	e.kills++
 	e.G = e.tb.And(e.G, e.tb.Not(bad))
 }
 
@@ -239,8 +248,8 @@ func (e *Engine) feasible(g *Term) bool {
 		return r
 	}
 	if e.feas == nil || e.feas.dead {
-		kind := "z3"
-		s, err := StartSolver(kind, 5000)
+		kind := BVSolver
+		s, err := StartSolver(kind, 3000)
 		if err != nil {
 			return true
 		}
@@ -248,11 +257,17 @@ func (e *Engine) feasible(g *Term) bool {
 	}
 	e.nFeas++
 	var r string
-	if g.HasFPOp() || e.assume.HasFPOp() {
+	if e.feasTimeouts >= 4 {
+		r = "unknown"
+	} else if g.HasFPOp() || e.assume.HasFPOp() {
 		// keep the fast path on z3; FP-heavy guards are treated as feasible
 		r = "unknown"
 	} else {
 		r, _ = e.feas.Check([]*Term{e.assume, g}, nil)
+		if r == "unknown" {
+			e.feasTimeouts++
+			e.note("feasibility query timed out (branch kept)")
+		}
 	}
 	ok := r != "unsat"
 	e.feasCache[key] = ok
@@ -274,6 +289,7 @@ type Frame struct {
 	rets    []retArrival
 	cfg     *FuncCFG
 	skipG   map[*ssa.BasicBlock]*Term // slot-wise map range: guard of "entry absent, continue" per header block
+	symExit map[*Loop]bool            // a symbolic branch left this loop during the current iteration
 }
 
 type retArrival struct {
@@ -409,6 +425,7 @@ func (e *Engine) evalRegion(fr *Frame, l *Loop, entry []Arrival, outs *map[*ssa.
 
 func (e *Engine) evalLoop(fr *Frame, l *Loop, arrivals []Arrival) map[*ssa.BasicBlock][]Arrival {
 	exits := map[*ssa.BasicBlock][]Arrival{}
+	needCheck := false
 	for i := 0; ; i++ {
 		if len(arrivals) == 0 {
 			break
@@ -420,7 +437,7 @@ func (e *Engine) evalLoop(fr *Frame, l *Loop, arrivals []Arrival) map[*ssa.Basic
 		if any.IsFalse() {
 			break
 		}
-		if i > 0 && !any.IsTrue() && !e.feasible(any) {
+		if i > 0 && needCheck && !any.IsTrue() && !e.feasible(any) {
 			break
 		}
 		if i >= e.opts.Unwind {
@@ -432,7 +449,13 @@ func (e *Engine) evalLoop(fr *Frame, l *Loop, arrivals []Arrival) map[*ssa.Basic
 			e.G = saved
 			break
 		}
+		if fr.symExit == nil {
+			fr.symExit = map[*Loop]bool{}
+		}
+		fr.symExit[l] = false
+		k0 := e.kills
 		arrivals = e.evalRegion(fr, l, arrivals, &exits)
+		needCheck = fr.symExit[l] || e.kills != k0
 	}
 	return exits
 }
@@ -552,6 +575,16 @@ func (e *Engine) evalBlock(fr *Frame, b *ssa.BasicBlock, as []Arrival, route fun
 			}
 			gT := tb.And(cur, c)
 			gF := tb.And(cur, tb.Not(c))
+			if !c.IsConst() {
+				for k := 0; k < 2; k++ {
+					for _, lx := range fr.cfg.loopsExited(b, b.Succs[k]) {
+						if fr.symExit == nil {
+							fr.symExit = map[*Loop]bool{}
+						}
+						fr.symExit[lx] = true
+					}
+				}
+			}
 			if !gT.IsFalse() {
 				route(b.Succs[0], e.mkArrival(fr, gT, b, b.Succs[0], 0))
 			}
@@ -638,6 +671,7 @@ func (e *Engine) explicitPanic(fr *Frame, x *ssa.Panic) {
 	} else {
 		e.addObl("panic", label, x.Pos(), e.tb.True)
 	}
+	e.kills++
 	e.G = e.tb.False
 }
 
@@ -1571,7 +1605,31 @@ func (e *Engine) sliceOp(fr *Frame, x *ssa.Slice) Value {
 			}
 			ok := tb.And(tb.Cmp(OpULE, l, h), tb.Cmp(OpULE, h, m), tb.Cmp(OpULE, m, a.Cap))
 			bad = tb.Or(bad, tb.And(a.G, tb.Not(ok)))
-			out = append(out, SliceAlt{G: a.G, Arr: a.Arr, Off: tb.BVOp(OpAdd, a.Off, l), Len: tb.BVOp(OpSub, h, l), Cap: tb.BVOp(OpSub, m, l)})
+			// bounds valid on live paths (l <= h <= m <= cap there)
+			hUB := e.lenUB(a)
+			if hi != nil {
+				if u := tb.UB(h); u < ubInf {
+					hUB = int(u)
+				} else {
+					hUB = len(a.Arr.E) - int(tb.LB(a.Off))
+				}
+			}
+			nml := hUB - int(tb.LB(l))
+			if nml < 0 {
+				nml = 0
+			}
+			nmc := 0
+			if u := tb.UB(l); u < ubInf {
+				base := e.capLB(a)
+				if mx != nil {
+					base = int(tb.LB(m))
+				}
+				nmc = base - int(u)
+				if nmc < 0 {
+					nmc = 0
+				}
+			}
+			out = append(out, SliceAlt{G: a.G, Arr: a.Arr, Off: tb.BVOp(OpAdd, a.Off, l), Len: tb.BVOp(OpSub, h, l), Cap: tb.BVOp(OpSub, m, l), ML1: nml + 1, MC1: nmc + 1})
 		}
 		e.runtimePanic("slice bounds out of range", x.Pos(), bad)
 		return &SliceV{out}
@@ -1732,8 +1790,47 @@ func (e *Engine) sliceElem(a SliceAlt, i *Term) Value {
 	return e.selectElem(a.Arr.E, cell)
 }
 
+// lenUB / capLB: bounds of a slice alternative valid on every path where it is live.
+func (e *Engine) lenUB(a SliceAlt) int {
+	if a.Arr == nil {
+		return 0
+	}
+	best := len(a.Arr.E) - int(e.tb.LB(a.Off))
+	if a.ML1 > 0 && a.ML1-1 < best {
+		best = a.ML1 - 1
+	}
+	if u := e.tb.UB(a.Len); u < uint64(best) {
+		best = int(u)
+	}
+	if best < 0 {
+		best = 0
+	}
+	return best
+}
+
+func (e *Engine) capLB(a SliceAlt) int {
+	if a.Arr == nil {
+		return 0
+	}
+	best := int(e.tb.LB(a.Cap))
+	if a.MC1 > 0 && a.MC1-1 > best {
+		best = a.MC1 - 1
+	}
+	return best
+}
+
 // maxLen returns a concrete upper bound of a slice alternative's length.
 func (e *Engine) maxLen(a SliceAlt) int {
+	if a.Arr == nil {
+		return 0
+	}
+	if a.Len.IsConst() {
+		return int(a.Len.C)
+	}
+	return e.lenUB(a)
+}
+
+func (e *Engine) maxLenOld(a SliceAlt) int {
 	if a.Arr == nil {
 		return 0
 	}
@@ -1792,6 +1889,9 @@ func (e *Engine) appendOp(s *SliceV, t Value, st *types.Slice, pos token.Pos) Va
 	if len(els) == 0 {
 		return s
 	}
+	if os.Getenv("VERIF_DEBUG_TERMS") != "" {
+		fmt.Fprintf(os.Stderr, "append at %s: alts=%d terms=%d pool=%d\n", e.posStr(pos), len(s.Alts), e.tb.NumTerms(), len(e.arrPool[st.Elem().String()]))
+	}
 	var gs []*Term
 	var vs []Value
 	for _, a := range s.Alts {
@@ -1803,6 +1903,9 @@ func (e *Engine) appendOp(s *SliceV, t Value, st *types.Slice, pos token.Pos) Va
 		} else {
 			fit = tb.Cmp(OpULE, newLen, a.Cap)
 			capN = len(a.Arr.E)
+			if e.lenUB(a)+len(els) <= e.capLB(a) {
+				fit = tb.True
+			}
 		}
 		gAlt := tb.And(e.G, a.G)
 		var res Value
@@ -1814,7 +1917,7 @@ func (e *Engine) appendOp(s *SliceV, t Value, st *types.Slice, pos token.Pos) Va
 				pos := tb.BVOp(OpAdd, tb.BVOp(OpAdd, a.Off, a.Len), tb.Int(int64(j)))
 				e.writeObj(a.Arr, []PathEl{e.pathEl(pos)}, x.v, tb.And(gFit, x.g))
 			}
-			inPlace = &SliceV{[]SliceAlt{{G: tb.True, Arr: a.Arr, Off: a.Off, Len: newLen, Cap: a.Cap}}}
+			inPlace = &SliceV{[]SliceAlt{{G: tb.True, Arr: a.Arr, Off: a.Off, Len: newLen, Cap: a.Cap, ML1: e.lenUB(a) + len(els) + 1, MC1: e.capLB(a) + 1}}}
 		}
 		gGrow := tb.And(gAlt, tb.Not(fit))
 		if !gGrow.IsFalse() {
@@ -1823,24 +1926,29 @@ func (e *Engine) appendOp(s *SliceV, t Value, st *types.Slice, pos token.Pos) Va
 			if newCap < oldN+len(els) {
 				newCap = oldN + len(els)
 			}
-			if newCap < 4 {
-				newCap = 4
+			if newCap < e.opts.MinCap {
+				newCap = e.opts.MinCap
 			}
-			arr := e.newObj(OArr, st.Elem(), e.posStr(pos)+":append")
-			arr.E = make([]Value, newCap)
-			z := e.zero(st.Elem())
-			for i := range arr.E {
-				if i < oldN {
-					arr.E[i] = e.sliceElem(a, tb.Int(int64(i)))
+			// arrays allocated on mutually exclusive paths share one object (at most one exists per execution)
+			arr, fresh := e.allocArr(st.Elem(), newCap, gGrow, e.posStr(pos)+":append")
+			newCap = len(arr.E)
+			for i := 0; i < oldN; i++ {
+				v := e.sliceElem(a, tb.Int(int64(i)))
+				if fresh {
+					arr.E[i] = v
 				} else {
-					arr.E[i] = z
+					arr.E[i] = e.iteVal(gGrow, v, arr.E[i])
 				}
 			}
 			for j, x := range els {
 				p := tb.BVOp(OpAdd, a.Len, tb.Int(int64(j)))
-				e.writeObj(arr, []PathEl{e.pathEl(p)}, x.v, x.g)
+				gg := x.g
+				if !fresh {
+					gg = tb.And(gGrow, x.g)
+				}
+				e.writeObj(arr, []PathEl{e.pathEl(p)}, x.v, gg)
 			}
-			grown = &SliceV{[]SliceAlt{{G: tb.True, Arr: arr, Off: tb.Int(0), Len: newLen, Cap: tb.Int(int64(newCap))}}}
+			grown = &SliceV{[]SliceAlt{{G: tb.True, Arr: arr, Off: tb.Int(0), Len: newLen, Cap: tb.Int(int64(newCap)), ML1: oldN + len(els) + 1, MC1: newCap + 1}}}
 		}
 		switch {
 		case inPlace != nil && grown != nil:
@@ -1859,6 +1967,31 @@ func (e *Engine) appendOp(s *SliceV, t Value, st *types.Slice, pos token.Pos) Va
 		return s
 	}
 	return e.mergeMany(gs, vs)
+}
+
+// allocArr returns a backing array of at least n cells that is live under g. An array allocated under
+// a guard that is syntactically disjoint from g is reused: the two allocations can never coexist in one
+// execution, and all accesses are guarded.
+func (e *Engine) allocArr(et types.Type, n int, g *Term, site string) (*Object, bool) {
+	key := et.String()
+	for _, o := range e.arrPool[key] {
+		if len(o.E) >= n && e.tb.And(o.Live, g).IsFalse() {
+			o.Live = e.tb.Or(o.Live, g)
+			return o, false
+		}
+	}
+	arr := e.newObj(OArr, et, site)
+	arr.E = make([]Value, n)
+	z := e.zero(et)
+	for i := range arr.E {
+		arr.E[i] = z
+	}
+	arr.Live = g
+	if e.arrPool == nil {
+		e.arrPool = map[string][]*Object{}
+	}
+	e.arrPool[key] = append(e.arrPool[key], arr)
+	return arr, true
 }
 
 func (e *Engine) pathEl(t *Term) PathEl {
